@@ -5,6 +5,7 @@ use vh::report::*;
 mod c02;
 mod c05;
 mod c09;
+mod c13;
 mod c20;
 mod util;
 
@@ -18,6 +19,7 @@ fn main() {
     let (level, (cov, viol)) = match cli.prop.as_str() {
         "C02" => ("model_checking", c02::run(&cli, "C02")),
         "C14" => ("model_checking", c02::run(&cli, "C14")),
+        "C13" => ("fault_enumeration", c13::run(&cli)),
         "C05" => ("model_checking", c05::run(&cli)),
         "C09" => ("model_checking", c09::run(&cli)),
         "C20" => ("model_checking", c20::run(&cli)),
